@@ -360,6 +360,7 @@ def build():
             inline={"cell:NumberCell.value", "cell:TextCell.value", "cell:BoolCell.value", "cell:DateCell.value",
                     "cell:DurationCell.value", "cell:EmptyCell.value", "cell:RichTextCell.value"},
             replay=enc_replay(kind), result="none",
+            search=(lambda kk: lambda plan_, c: {"custom": "search_encoder", "native_module": plan_.native_module, "kind": kk})(kind),
             canaries=[lambda ex, env: z3.Select(env["result"].w32, field_offset(9, enc_flags(env)) + 4) ==
                       env["self"].fields["_formula_id"].val.t]))
 
@@ -401,6 +402,9 @@ def build():
         "ints mathematical (exact)",
     ]
     plan.trusted += ["pyvc AST->SMT translation incl. if-join merging (cross-checked against CPython)", "z3 5.1.0", "cvc5 1.0.3"]
+    for c_ in plan.targets:
+        if getattr(c_, "search", None) is None and getattr(c_, "home", plan) is plan and (True):
+            c_.search = lambda plan_, c: {"custom": "search_decoder", "native_module": plan_.native_module}
     return plan
 
 
